@@ -205,7 +205,7 @@ PROPS["C03"] = {
          "quick": {"shards": 4, "checks": 400, "cap": 900},
          "thorough": {"shards": 8, "checks": 6000, "cap": 7200}},
         {"name": "binary", "pkg": "c03", "test": "TestBinary", "binary": True,
-         "quick": {"shards": 24, "checks": 48, "cap": 900, "shrinktime": "60s"},
+         "quick": {"shards": 24, "checks": 144, "cap": 900, "shrinktime": "60s"},
          "thorough": {"shards": 32, "checks": 4000, "cap": 7200, "shrinktime": "120s"}},
     ],
 }
